@@ -383,3 +383,162 @@ def c14_4(I, shape):
                 isinstance(body[1].value, ast.Name) and \
                 body[1].value.id == f.target.id
     I.check(ok, "blocking-%s-is-exhaust-%s" % (sync, asyn))
+
+
+# ---------------------------------------------------------------------------
+# C14.5  AsyncStateMachine drives the generators like the blocking calls do
+# ---------------------------------------------------------------------------
+
+def _shapes_c14_5(tier):
+    out = []
+    for op in ("read", "write", "close", "handshake"):
+        for n in ((0, 1, 3) if tier == "quick" else (0, 1, 2, 3, 4)):
+            out.append(dict(op=op, n=n))
+    return out
+
+
+@obligation("C14.5", _shapes_c14_5,
+            functions=["tlslite.integration.asyncstatemachine:"
+                       "AsyncStateMachine._doReadOp",
+                       "tlslite.integration.asyncstatemachine:"
+                       "AsyncStateMachine._doWriteOp",
+                       "tlslite.integration.asyncstatemachine:"
+                       "AsyncStateMachine._doCloseOp",
+                       "tlslite.integration.asyncstatemachine:"
+                       "AsyncStateMachine._doHandshakeOp",
+                       "tlslite.integration.asyncstatemachine:"
+                       "AsyncStateMachine.inReadEvent",
+                       "tlslite.integration.asyncstatemachine:"
+                       "AsyncStateMachine.inWriteEvent",
+                       "tlslite.integration.asyncstatemachine:"
+                       "AsyncStateMachine.wantsReadEvent",
+                       "tlslite.integration.asyncstatemachine:"
+                       "AsyncStateMachine.wantsWriteEvent"],
+            assumes=["the TLS connection is a stub whose *Async generators "
+                     "yield a symbolic sequence of n would-block markers "
+                     "(each 0 = wants read or 1 = wants write) before "
+                     "finishing; the caller delivers the event the machine "
+                     "asks for"])
+def c14_5(I, shape):
+    """through AsyncStateMachine an operation completes exactly when its
+    generator does, with the generator's result, after exactly n events"""
+    from tlslite.integration.asyncstatemachine import AsyncStateMachine
+    n, op = shape["n"], shape["op"]
+    marks = [I.pick([0, 1], "mark") for _ in range(n)]
+    payload = I.bytes(2, "data")
+    done = []
+
+    class Conn(object):
+        def _gen(self, final):
+            for m in marks:
+                yield m
+            if final is not None:
+                yield final
+            done.append(True)
+
+        def readAsync(self, *a):
+            return self._gen(payload)
+
+        def writeAsync(self, b):
+            return self._gen(None)
+
+        def closeAsync(self):
+            return self._gen(None)
+
+    events = []
+
+    class M(AsyncStateMachine):
+        def outReadEvent(self, b):
+            events.append(("read", b))
+
+        def outWriteEvent(self):
+            events.append(("write",))
+
+        def outCloseEvent(self):
+            events.append(("close",))
+
+        def outConnectEvent(self):
+            events.append(("connect",))
+    m = M()
+    m.tlsConnection = Conn()
+    steps = 0
+    if op == "write":
+        m.setWriteOp(b"xy")
+    elif op == "close":
+        m.setCloseOp()
+    elif op == "handshake":
+        m.setHandshakeOp(m.tlsConnection._gen(None))
+    else:
+        m.inReadEvent()
+    for k in range(n):
+        # the machine must ask for exactly the event the generator needs
+        I.check(m.wantsReadEvent() == (marks[k] == 0) and
+                m.wantsWriteEvent() == (marks[k] == 1),
+                "asks-for-the-event-the-generator-needs")
+        I.check(events == [], "no-completion-before-the-generator-finishes")
+        if marks[k] == 0:
+            m.inReadEvent()
+        else:
+            m.inWriteEvent()
+    want = {"read": [("read", payload)], "write": [], "close": [("close",)],
+            "handshake": [("connect",)]}[op]
+    if op == "read":
+        I.check(len(events) == 1 and events[0][0] == "read" and
+                bool(seq_eq(events[0][1], payload)),
+                "read-completes-with-the-generators-result")
+    else:
+        I.check(events == want, "completion-event-exactly-once")
+    I.check(m.result is None and not (m.reader or m.writer or m.closer or
+                                      m.handshaker),
+            "idle-after-completion")
+
+
+@obligation("C14.6", lambda tier: [dict()],
+            functions=["tlslite.tlsconnection:TLSConnection.handshakeServer",
+                       "tlslite.tlsconnection:TLSConnection."
+                       "handshakeClientCert",
+                       "tlslite.tlsconnection:TLSConnection."
+                       "handshakeClientSRP",
+                       "tlslite.tlsconnection:TLSConnection."
+                       "handshakeClientAnonymous"],
+            assumes=["AST of the current source: each blocking handshake "
+                     "entry point must forward every one of its parameters, "
+                     "under the same name, to the generator it exhausts"])
+def c14_6(I, shape):
+    """blocking handshake entry points pass all their arguments on"""
+    import inspect
+    import textwrap
+    import tlslite.tlsconnection as tcm
+    src = textwrap.dedent(inspect.getsource(tcm.TLSConnection.handshakeServer))
+    fn = ast.parse(src).body[0]
+    params = [a.arg for a in fn.args.args[1:]]
+    calls = [n for n in ast.walk(fn) if isinstance(n, ast.Call) and
+             isinstance(n.func, ast.Attribute) and
+             n.func.attr == "handshakeServerAsync"]
+    ok = len(calls) == 1
+    if ok:
+        c = calls[0]
+        passed = set()
+        for i, a in enumerate(c.args):
+            if isinstance(a, ast.Name):
+                passed.add(a.id)
+        for kw in c.keywords:
+            if isinstance(kw.value, ast.Name) and kw.arg == kw.value.id:
+                passed.add(kw.arg)
+        ok = set(params) <= passed
+    I.check(ok, "handshakeServer-forwards-every-parameter",
+            detail=lambda: dict(params=params))
+    # client entry points: async_ flag selects generator vs exhaustion
+    for name in ("handshakeClientCert", "handshakeClientSRP",
+                 "handshakeClientAnonymous"):
+        f = getattr(tcm.TLSConnection, name)
+        src = textwrap.dedent(inspect.getsource(f))
+        fn = ast.parse(src).body[0]
+        params = [a.arg for a in fn.args.args[1:] if a.arg != "async_"]
+        helper = [n for n in ast.walk(fn) if isinstance(n, ast.Call) and
+                  isinstance(n.func, ast.Attribute) and
+                  n.func.attr == "_handshakeClientAsync"]
+        ok = len(helper) == 1
+        used = set(n.id for n in ast.walk(fn) if isinstance(n, ast.Name))
+        ok = ok and set(params) <= used
+        I.check(ok, "%s-uses-every-parameter" % name)
